@@ -213,6 +213,27 @@ def run_case(case):
             b0 = await inv.read_runtime_data()
             await compare(b0, "battery absent")
             dev.set_reg(35184, 1)
+            if case["seed"] % 2 == 0:
+                # the bulk read that NOTICES the battery loses its second request (the battery block) with all its
+                # retransmissions and fails: sensors() now lists the battery ids, and a listed id is never 'unknown'
+                world.net.begin_script([{"k": "ok"}] + [{"k": "drop"}] * 2, {"k": "ok"})
+                try:
+                    await inv.read_runtime_data()
+                except ge.InverterError:
+                    pass
+                world.net.begin_script([], {"k": "ok"})
+                for sn in list(inv.sensors()):
+                    if sn.id_ in ("battery_soc", "battery_temperature", "battery_soh", "battery_bms"):
+                        try:
+                            await inv.read_sensor(sn.id_)
+                        except ValueError as e:
+                            if "nknown" in str(e):
+                                add("C16:unknown-sensor:stale-map:after-failed-bulk",
+                                    f"{fam}/{var}/{tr}: read_sensor({sn.id_!r}) raised {e!r} although sensors() lists the "
+                                    f"id (the bulk read that noticed the battery failed half-way)")
+                                break
+                        except Exception:  # noqa
+                            pass
         elif h == "battery_on_off":
             b0 = await inv.read_runtime_data()
             await compare(b0, "battery present")
